@@ -174,6 +174,7 @@ fn visit_text(prop: &'static str, local: &mut Local, input: &str) -> Visit {
             match r {
                 Some(r) => {
                     let vi = &r.verif;
+                    local.cover(vi);
                     if vi.rollbacks > 0 {
                         local.count("inputs_with_rollback");
                     }
